@@ -20,6 +20,34 @@ def r1(chk):
         r.require(cfg, 1, "waiters on the balancer's notifier")
 
 
+def r1b_broadcast(chk):
+    r = chk.rule("R1b", "a connected peer releases every sender that waits for the first peer", "T1 who-may-call (waker form)",
+                 "wait_for_connection takes &self and is awaited by any number of concurrent send() calls; every waker of the balancer's notifier therefore uses the broadcast "
+                 "notify_waiters() (notify_one() releases a single waiter and nobody passes the baton on: the other senders stay blocked although a peer is connected)")
+    for cfg, prog in chk.configs():
+        find, waiters, wakers = common.notify_inventory(prog)
+        lb_waiters = [w for w in waiters if w.body.impl_self == "socket::patterns::load_balancer::LoadBalancer"]
+        baton = False
+        for w in lb_waiters:
+            # a waiter that signals the same notifier again after it woke up would pass the wake-up on
+            for c in w.body.calls:
+                if c.is_("tokio::sync::Notify::notify_one") and c.blk in w.body.reachable([w.blk]):
+                    baton = True
+        n = 0
+        for c in wakers:
+            if c.body.impl_self != "socket::patterns::load_balancer::LoadBalancer" or "::tests" in c.body.path:
+                continue
+            n += 1
+            key = "%s|wakes all waiting senders" % short(c.body.path)
+            if c.name == "notify_waiters" or baton:
+                r.ok(cfg, key, where(c.body, c.blk), c.name + "()")
+            else:
+                r.bad(cfg, key, where(c.body, c.blk), "%s() releases one of the senders blocked in wait_for_connection(); with m > 1 tasks waiting for the first peer the others stay blocked until SNDTIMEO, another peer, or close" % c.name)
+        if not lb_waiters:
+            r.bad(cfg, "anchor|LoadBalancer waiter", "core/src/socket/patterns/load_balancer.rs", "no Notified future is created in LoadBalancer (anchor missing)")
+        r.require(cfg, 2, "wakers of the balancer's notifier")
+
+
 def r2_sweep_before_block(chk):
     r = chk.rule("R2", "all peers are tried without blocking before any blocking send", "T3 guarded-by",
                  "in route_message the awaited send_multipart_owned is dominated by a failed try_send_multipart_owned_sync and by `attempts >= max_attempts`")
@@ -94,6 +122,7 @@ def r4_single_peer_wait(chk):
 def run(chk):
     chk.undecided = ["exact round-robin order and starvation-freedom (function of the whole add/remove/send history)"]
     r1(chk)
+    r1b_broadcast(chk)
     r2_sweep_before_block(chk)
     r3_no_clone(chk)
     r4_single_peer_wait(chk)
